@@ -303,8 +303,15 @@ def observe_data(be, text):
     return {"syms": syms, "keys": list(data.keys()), "visible": [], "error": None}
 
 
+def fast_dip():
+    """DIP() looks up its caller with inspect.stack() (7 ms); the shared adapter replaces that by a constant."""
+    from . import dip_adapter
+    dip_adapter.speedup()
+
+
 def observe_dip(text):
     from scinumtools.dip import DIP
+    fast_dip()
     from scinumtools.dip.datatypes import IntegerType, FloatType, BooleanType, StringType
     with DIP() as d:
         d.add_string(text)
@@ -563,6 +570,7 @@ def phase_a(rec):
     if rec["class"] != "wellformed":
         return {"status": "unspecified"}
     from scinumtools.dip import DIP
+    fast_dip()
     layout = "nested" if (rec["_rid"] + rec["_seed"]) % 2 else "flat"
     text = render_dip(rec["env"], layout)
     try:
